@@ -64,6 +64,17 @@ class AuditedList(list):
         return value
 
 
+def _no_bitmap_defined():
+    raise PyBufrKitError('No bitmap is defined for the bitmapped descriptor')
+
+
+def _next_bitmapped_descriptor(bitmapped_descriptors):
+    try:
+        return next(bitmapped_descriptors)
+    except StopIteration:
+        raise PyBufrKitError('More bitmapped descriptors than descriptors selected by the bitmap')
+
+
 class CoderState(object):
     """
     The state of Coder for keeping track of variables when a Coder is working. The use
@@ -140,7 +151,7 @@ class CoderState(object):
 
         # Function to retrieve next bitmapped descriptor. Will be defined when
         # a bitmap is created or recalled.
-        self.next_bitmapped_descriptor = None
+        self.next_bitmapped_descriptor = _no_bitmap_defined
 
         # Where to start count back for bitmap related descriptors
         self.back_reference_boundary = 0
@@ -174,7 +185,7 @@ class CoderState(object):
         self.bitmap_definition_state = BITMAP_NA
         self.most_recent_bitmap_is_for_reuse = False
         self.n_031031 = 0
-        self.next_bitmapped_descriptor = None
+        self.next_bitmapped_descriptor = _no_bitmap_defined
         self.back_reference_boundary = 0
         self.back_referenced_descriptors = None
         self.decoded_descriptors = self.decoded_descriptors_all_subsets[idx_subset]
@@ -187,7 +198,8 @@ class CoderState(object):
         self.back_reference_boundary = len(self.decoded_descriptors)
 
     def recall_bitmap(self):
-        self.next_bitmapped_descriptor = functools.partial(next, iter(self.bitmapped_descriptors))
+        self.next_bitmapped_descriptor = functools.partial(
+            _next_bitmapped_descriptor, iter(self.bitmapped_descriptors))
         return self.bitmap
 
     def cancel_bitmap(self):
@@ -242,7 +254,8 @@ class CoderState(object):
                 self.back_referenced_descriptors
             ) if bit == 0
         ]
-        self.next_bitmapped_descriptor = functools.partial(next, iter(self.bitmapped_descriptors))
+        self.next_bitmapped_descriptor = functools.partial(
+            _next_bitmapped_descriptor, iter(self.bitmapped_descriptors))
 
     def _assert_equal_values_of_index(self, idx):
         """
